@@ -362,6 +362,7 @@ func vcRun(t *testing.T, c *vfCase, st *vfStats) {
 	leaveInc := int64(-1)
 	for _, op := range c.Ops {
 		panicked := false
+		leaveBad := false
 		func() {
 			defer func() {
 				if p := recover(); p != nil {
@@ -424,8 +425,30 @@ func vcRun(t *testing.T, c *vfCase, st *vfStats) {
 				m.nextIncarnation()
 				st.OpHist["incBegin"]++
 			case 10:
-				m.Leave(time.Millisecond)
+				wasLeft := m.hasLeft()
+				err := m.Leave(time.Millisecond)
 				st.OpHist["leave"]++
+				if err == nil && !wasLeft {
+					// Leave reported success: if it lists a peer that is neither dead nor gone, the departure must have
+					// been handed out to a packet at least once (nobody transmits in this harness, so it cannot have been)
+					peer := false
+					m.nodeLock.RLock()
+					for _, n := range m.nodes {
+						if n.Name != "self" && !n.DeadOrLeft() {
+							peer = true
+						}
+					}
+					m.nodeLock.RUnlock()
+					unsent := false
+					m.broadcasts.mu.Lock()
+					if lb, ok := m.broadcasts.tm["self"]; ok && lb.transmits == 0 {
+						if msg := lb.b.Message(); len(msg) > 0 && messageType(msg[0]) == deadMsg {
+							unsent = true
+						}
+					}
+					m.broadcasts.mu.Unlock()
+					leaveBad = peer && unsent
+				}
 			case 11:
 				del.meta = []byte(vcMetas[op[1]])
 				m.UpdateNode(time.Millisecond)
@@ -438,6 +461,9 @@ func vcRun(t *testing.T, c *vfCase, st *vfStats) {
 		}()
 		synctest.Wait()
 		o := snapshot(panicked)
+		if leaveBad {
+			o[len(o)-1] |= 4
+		}
 		c.Obs = append(c.Obs, o)
 		st.Ops++
 		if panicked {
